@@ -330,7 +330,7 @@ func (g *grammar) computeAbsorbed() {
 		if u == nil || fn.Exported() || u.calls == 0 || u.other > 0 {
 			continue
 		}
-		switch fn.Name() {
+		switch fnName(fn) {
 		case "quoteIdentifier", "quoteSQLString":
 			continue // the sanitizers are events of their own
 		}
@@ -567,7 +567,7 @@ func (c *grammarClient) PostAssign(e *Engine, st *State, lhs, rhs []ast.Expr, _ 
 	if len(rhs) == 1 && len(lhs) >= 1 {
 		if ix, ok := ast.Unparen(rhs[0]).(*ast.IndexExpr); ok {
 			if call, ok := ast.Unparen(ix.X).(*ast.CallExpr); ok {
-				if f := Callee(e.Info, call); f != nil && f.Name() == "initKnownFunctions" {
+				if f := Callee(e.Info, call); f != nil && fnName(f) == "initKnownFunctions" {
 					if k := e.CanonSt(st, lhs[0]); k.OK {
 						c.kfVar[k.Key] = true
 					}
@@ -733,7 +733,7 @@ func (c *grammarClient) PreCall(e *Engine, st *State, call *ast.CallExpr, callee
 		return st
 	}
 	if callee != nil {
-		switch callee.Name() {
+		switch fnName(callee) {
 		case "quoteIdentifier":
 			ev := c.event(call, 0, func() *emitEvent { return &emitEvent{Kind: "Q", Arg: call.Args[1], Builder: bk, Callee: callee} })
 			return c.occ(e, st, ev, bk)
